@@ -1,6 +1,7 @@
 import PlushModel
 import PlushProofs.Lib.EvalKeepsCur
 import PlushProofs.Lib.EvalKeepsTree
+import PlushModel.Gen.EvalDispatch
 import PlushProofs.Props.C10
 /-!
   C09 — names bound inside for / function / partial / contentOf scopes never leak or clobber.
@@ -113,5 +114,22 @@ theorem C09_render_keeps_scope_tree (fuel : Nat) (src : Bytes) (ctx : Nat) (s : 
 theorem C09_expr_keeps_parent (fuel : Nat) (e : Option Expr) (s : ES) (i : Nat) (hi : i < s.store.frames.size) :
     ((evalExpr fuel e s).2.store.frames[i]?).map Frame.outer = (s.store.frames[i]?).map Frame.outer :=
   (((allKT fuel).evalExpr e).grows s).2 i hi
+
+/-! ### The code's side of "restored everywhere": every scope switch has a deferred restore (translated) -/
+
+/-- EVERY PLACE IN /repo THAT MAKES ANOTHER CONTEXT CURRENT RESTORES THE PREVIOUS ONE BY `defer` — so also on the
+    error paths — as re-read from the source on every run (`Gen.ctxSwitchSites`: all assignments `x.ctx = …` in
+    compiler.go, helper_context.go, partial_helper.go, template.go, plush.go, with whether a `defer` registered
+    before them in the same or an enclosing block assigns the saved context back). This is the syntactic fact that
+    licenses modelling all five sites with `withCtx` (which restores on success AND on error,
+    `withCtx_restores`); the evaluator-wide theorem `C09_context_restored_everywhere` is about that model. A
+    restore moved after the body (seeded changes C16-f, C09-h), or dropped on one path (C11-c), flips an entry. -/
+theorem C09_every_scope_switch_is_deferred :
+    Gen.ctxSwitchSites = [("compiler.go:evalUserFunction", true), ("compiler.go:evalCallExpression", true),
+      ("compiler.go:evalForExpression", true), ("compiler.go:evalIndexCallee", true),
+      ("helper_context.go:BlockWith", true)] ∧ ∀ p ∈ Gen.ctxSwitchSites, p.2 = true := by
+  constructor
+  · rfl
+  · decide
 
 end Plush
